@@ -99,6 +99,21 @@ def stepOp (b : Bundle) (idx : Nat) (op : String) : Bundle × String :=
       let res := addResource b body
       (res.1, shape body ++ "|" ++ showErrs res.2)
     | none => (b, "bad-op")
+  -- `addh` / `addovh`: the resource is handed over as a SHARED handle (`Rc<FluentResource>`); an identical
+  -- description later in the history is the very same handle again.  Sharing is invisible to the registry.
+  | ["addh", r] =>
+    match parseRes r with
+    | some ds =>
+      let body := bodyOf ds
+      let res := addResource b body
+      (res.1, shape body ++ "|" ++ showErrs res.2)
+    | none => (b, "bad-op")
+  | ["addovh", r] =>
+    match parseRes r with
+    | some ds =>
+      let body := bodyOf ds
+      (addResourceOverriding b body, shape body ++ "|ok")
+    | none => (b, "bad-op")
   | ["addov", r] =>
     match parseRes r with
     | some ds =>
